@@ -23,6 +23,13 @@ Containment: every path handed to twisted lives under one mkdtemp() top and ALL 
 crash-free phases and the reboots) runs inside a FaultFS, which refuses — without executing — any
 mutating filesystem call outside that top and reports it as `filesystem-call-outside-scratch`.
 
+Earlier generations: half of the cases do not start from a clean directory — before the enumerated
+save either stale/foreign files of arbitrary content (mostly LONGER than the new content) are planted
+at the paths the operation uses as temporaries, or a save of a LARGER content is run first and dies
+after all its bytes reached the temporary; nothing is cleaned, then the (smaller) save is enumerated
+as usual: count pass, completed check, every crash point, redo.  open() flags are modelled by the
+real filesystem (`open(..., "wb")` truncates, `os.open` without O_TRUNC + fdopen does not).
+
 Guards: which of old/new survives is never constrained; expected new bytes for `sob` are taken from
 a crash-free save of the same object in a separate directory (pickle/aot output is deterministic for
 the same object in one process — verified per case, else the byte comparison is skipped and only the
@@ -48,7 +55,7 @@ ASSUMPTIONS = [
 ]
 SHARDS = {"quick": 4, "thorough": 16}
 FLOORS = {"crash_runs": 300, "target_checks": 300, "torn_write_points": 40, "old_kept": 30, "completed_new_verified": 30,
-          "setcontent_cases": 20, "sob_cases": 20, "sob_loads_compared": 50, "temp_left_behind": 30, "target_missing_before": 5}
+          "setcontent_cases": 20, "sob_cases": 20, "leftover_temp_cases": 40, "saves_over_longer_leftover": 30, "crashed_larger_save_generations": 20, "sob_loads_compared": 50, "temp_left_behind": 30, "target_missing_before": 5}
 READY = True
 
 SIZES = [0, 1, 2, 15, 16, 17, 100, 1000, 8191, 8192, 8193, 65536]
@@ -117,11 +124,13 @@ class Base:
                     key = "target-lost"
                 elif got != self.new and self.new.startswith(got):
                     key = "partial-new-content-at-target"
+                elif got.startswith(self.new):
+                    key = "new-content-followed-by-stale-tail-of-leftover-temporary"
                 elif self.old is not None and got != self.old and self.old.startswith(got):
                     key = "truncated-old-content-at-target"
                 else:
                     key = "target-neither-old-nor-new"
-                ctx.violation(key if crashed else "completed-op-wrong-content", "target path holds neither the complete old nor the complete new content",
+                ctx.violation(key if (crashed or "stale-tail" in key) else "completed-op-wrong-content", "target path holds neither the complete old nor the complete new content",
                               self.witness(point, {"got_len": None if got is None else len(got), "got_head": None if got is None else got[:60]}))
             elif crashed:
                 ctx.count("old_kept" if got == self.old else "new_kept")
@@ -141,6 +150,65 @@ class Base:
             else:
                 ctx.violation("non-temporary-file-left-behind", "a file that is not a temporary of the operation was left behind", self.witness(point, {"name": name}))
 
+    def discover_temps(self):
+        """One crash-free run on the pristine directory: which paths does the operation use as
+        temporaries (opened for writing, gone afterwards)?  Restores the directory."""
+        fs = FaultFS(self.root)
+        with fs:
+            self.op()
+        temps = [d[0] for _, kind, d, _ in fs.log if kind in ("open", "os.open") and d[0] != self.target and not os.path.exists(d[0])]
+        restore_tree(self.dir, self.pristine)
+        return temps
+
+    def plant_leftovers(self):
+        """Earlier generations: the directory the enumerated save starts from may already hold
+        temporaries — (a) stale/foreign files of arbitrary content at the temporary's path, or
+        (b) what a crashed save of a LARGER content left there (target still old).  The pristine
+        snapshot for the enumeration is taken afterwards; nothing is cleaned in between."""
+        ctx, rng = self.ctx, self.rng
+        self.leftover = rng.choice(["none", "garbage", "crashed-larger-save", "crashed-larger-save"])
+        self.params["leftover"] = self.leftover
+        if self.leftover == "garbage":
+            temps = self.discover_temps()
+            for t in temps:
+                n = len(self.new) + rng.choice([-len(self.new) // 2, 1, 7, 100, 5000])
+                with open(t, "wb") as f:
+                    f.write(bytes(rng.randrange(256) for _ in range(64)) * (max(n, 1) // 64 + 1))
+                self.temp_paths.add(t)
+                ctx.count("leftover_temp_cases")
+                if os.path.getsize(t) > len(self.new):
+                    ctx.count("saves_over_longer_leftover")
+        elif self.leftover == "crashed-larger-save":
+            with FaultFS(self.root):
+                big = self.make_big()
+            count = FaultFS(self.root)
+            with count:
+                big()
+            restore_tree(self.dir, self.pristine)
+            # die late in the larger save: everything written has reached the temporary
+            late = [k for k, kind, _, _ in count.log if kind in ("rename", "replace")] or [len(count.log) - 1]
+            k = late[0] if rng.random() < 0.7 else max(0, late[0] - 1)
+            plen = count.log[k][3]
+            fs = FaultFS(self.root).arm(k, plen)
+            with fs:
+                try:
+                    big()
+                except Crash:
+                    pass
+            if not fs.crashed:
+                ctx.inconclusive("C52: crash point of the earlier larger save not reached")
+                return
+            if self.compare_bytes and self.read_target() != self.old:
+                return  # the earlier generation itself is judged by its own cases; start from what it left
+            left = [n for n in os.listdir(self.dir) if n not in (os.path.basename(self.target), "unrelated.dat")]
+            for n in left:
+                self.temp_paths.add(os.path.join(self.dir, n))
+                ctx.count("leftover_temp_cases")
+                if os.path.getsize(os.path.join(self.dir, n)) > len(self.new):
+                    ctx.count("saves_over_longer_leftover")
+            ctx.count("crashed_larger_save_generations")
+        self.pristine = snapshot_tree(self.dir)
+
     def run(self):
         ctx = self.ctx
         try:
@@ -149,6 +217,7 @@ class Base:
             if self.old is None:
                 ctx.count("target_missing_before")
             self.pristine = snapshot_tree(self.dir)
+            self.plant_leftovers()
             before = set(os.listdir(self.dir))
             count = FaultFS(self.root)
             with count:
@@ -221,6 +290,10 @@ class SetContent(Base):
                 f.write(self.old)
         self.fp = FilePath(os.fsencode(self.target) if bytes_path else self.target)
         self.params = {"exists": exists, "ext": self.ext, "bytes_path": bytes_path, "basename": base}
+
+    def make_big(self):
+        big = self.new + b"<bigger earlier generation>" * 40 + bytes(self.rng.randrange(256) for _ in range(300))
+        return (lambda: self.fp.setContent(big)) if self.ext is None else (lambda: self.fp.setContent(big, self.ext))
 
     def op(self):
         if self.ext is None:
@@ -299,6 +372,13 @@ class Sob(Base):
             self.old = self.read_target()
         shutil.rmtree(ref)
 
+    def bigger(self, obj):
+        return [obj, "earlier, larger generation " * 60, list(range(200))]
+
+    def make_big(self):
+        p = self.persistent(self.bigger(self.new_obj), os.path.join(self.dir, "app"))
+        return lambda: p.save(tag=self.tag, filename=self.filename)
+
     def op(self):
         self.p.save(tag=self.tag, filename=self.filename)
 
@@ -327,6 +407,9 @@ class SobApp(Sob):
 
     def make_objects(self):
         return ("old%d" % self.case_id, ["svc-a", "svc-b"]), ("new%d" % self.case_id, ["svc-c"] + ["svc%d" % i for i in range(self.rng.randrange(0, 4))])
+
+    def bigger(self, desc):
+        return (desc[0] + "-earlier", list(desc[1]) + ["extra-service-%d" % i for i in range(40)])
 
     def build(self, desc):
         from twisted.application import service
@@ -378,7 +461,7 @@ def run_case(ctx, i):
 def run(ctx):
     if not selftest_or_inconclusive(ctx):
         return
-    for i in ctx.cases(500, 20000):
+    for i in ctx.cases(400, 20000):
         run_case(ctx, i)
 
 
